@@ -416,6 +416,32 @@ def clause_wouldblock_source(ctx, P, cg):
         raise AnalysisBroken("reader functions on top of %s: %d" % (fb.srcname, n))
 
 
+def clause_readable_drains(ctx, P, cg):
+    """edge-triggered readiness: the read callback of a connection reads on EVERY invocation - a readable event that is
+    consumed without reading (because output is pending, say) is never repeated"""
+    key = ("struct.io_event", P.field_index("struct.io_event", "read_function"))
+    n = 0
+    for name in sorted(cg.field_funcs.get(key, ())):
+        f = P.functions[name]
+        if f.base != "buffered_socket.c":
+            continue
+        n += 1
+        bad = None
+        for v in Q.path_views(ctx, P, f):
+            reads = False
+            for _, i in v.calls():
+                for t in cg.targets(f, i):
+                    if P.srcname_of(t) == "socket_read" or any(P.srcname_of(x) == "socket_read" for x in cg.reach(t)):
+                        reads = True
+            if not reads:
+                bad = v
+        ctx.ob("C09.2 R-GATE", f, "readable-event-always-reads", bad is None,
+               "%s has a path that returns without reading from the socket: the edge-triggered readable event is used up, the bytes that "
+               "caused it are processed only if something else arrives later" % f.srcname, witness=bad.witness() if bad else None)
+    if n < 1:
+        raise AnalysisBroken("buffered_socket.c: read callback of the io_event not found")
+
+
 def clause_no_escape(ctx, P, cg):
     """a read callback gets a pointer into the connection's read buffer that is valid only until it returns (the buffer is
     compacted and refilled afterwards): the pointer is not stored into an object that outlives the call - bytes are copied"""
@@ -454,3 +480,4 @@ def run(ctx):
         clause4_cursor(ctx, P)
         clause_wouldblock_source(ctx, P, cg)
         clause_no_escape(ctx, P, cg)
+        clause_readable_drains(ctx, P, cg)
